@@ -65,6 +65,19 @@ CHECKS = {
                      "every grid point with both points pinned; bounds(lin), distance(lin,lin), equates(lin,lin) compared with the "
                      "variable-level distances for every expression pair in every state.",
                 note="Forms rejected with std::invalid_argument are accepted and counted."),
+    "C16": dict(engine="lexmc", category="exploration", design_ref="DESIGN.md §4 C16",
+                technique="bounded exhaustive enumeration of token sequences (vs reference lexer) and expression trees x placements (vs AST observed through the parser's virtual factories)",
+                text="All token sequences up to length 3 (4) over the complete token alphabet with several separators, all keyword/literal/"
+                     "comment variants, and all expression trees up to depth 2 in 14 syntactic placements, in Release and Debug builds: "
+                     "the lexer must produce the reference token stream and the parser must build exactly the tree that the documented "
+                     "precedence and associativity prescribe; every such program must be accepted.",
+                note="Evaluation exactness is decided at program level (E3) when that part is registered; parenthesised single identifiers are excluded (cast ambiguity)."),
+    "C18": dict(engine="lexmc", category="fault_enumeration", design_ref="DESIGN.md §4 C18",
+                technique="exhaustive enumeration of short byte strings and of all truncations of the shipped examples through lexer+parser, in Release and under ASan/UBSan, with per-case watchdog",
+                text="Every byte string up to length 5 (6) over a 14-symbol alphabet covering each lexer branch, every prefix of every example "
+                     "file, and the valid C16 programs, through the reader in Release and Debug+ASan+UBSan: only 'accepted' or "
+                     "'std::exception within the time limit' are allowed.",
+                note="Solver-level and network-level runs under the sanitizers are added as E3 is built; leaks on rejected input are not judged."),
 }
 
 PENDING_REASON = "check not built yet in this round (planned, see DESIGN.md §4); not claimed until its quick and thorough tiers have run to completion on the unchanged tree"
@@ -121,6 +134,8 @@ ENGINES = [
      "kind_free_text": "exhaustive root-level construction histories on sat_core, truth-table oracle"},
     {"name": "relmc", "path": "harness/relmc.cpp", "serves_properties": ["C11", "C12"],
      "kind_free_text": "exhaustive relation-request enumeration judged on a model grid with pinned variables (real lra/idl/rdl theories)"},
+    {"name": "lexmc", "path": "harness/lexmc.cpp", "serves_properties": ["C16", "C18"],
+     "kind_free_text": "exhaustive text enumeration through the RIDDLE lexer/parser (reference lexer, AST capture via virtual factories, crash/hang isolation)"},
     {"name": "netmc", "path": "harness/netmc.cpp", "serves_properties": ["C07", "C08", "C09", "C10", "C14"],
      "kind_free_text": "stateless depth-bounded exhaustive exploration of API histories on the real constraint network (history replayed on a fresh network under a deterministic allocator), reference models TT/FM/FW"},
 ]
